@@ -135,7 +135,16 @@ func (pr *Loader) findTableBuffer(s tableSection, dst []byte) ([]byte, error) {
 		defer r.Close()
 
 		if cap(dst) < int(s.zLength) {
-			dst = make([]byte, s.zLength)
+			// the uncompressed length comes from the file: do not trust it to
+			// allocate, read what is actually there
+			dst, err = io.ReadAll(io.LimitReader(r, int64(s.zLength)))
+			if err != nil {
+				return nil, err
+			}
+			if len(dst) != int(s.zLength) {
+				return nil, io.ErrUnexpectedEOF
+			}
+			return dst, nil
 		}
 		dst = dst[0:s.zLength]
 		if _, err := io.ReadFull(r, dst); err != nil {
@@ -143,6 +152,14 @@ func (pr *Loader) findTableBuffer(s tableSection, dst []byte) ([]byte, error) {
 		}
 	} else {
 		if cap(dst) < int(s.length) {
+			// the length comes from the file: check it before allocating
+			size, err := pr.file.Seek(0, io.SeekEnd)
+			if err != nil {
+				return nil, err
+			}
+			if int64(s.offset)+int64(s.length) > size {
+				return nil, io.ErrUnexpectedEOF
+			}
 			dst = make([]byte, s.length)
 		}
 		dst = dst[0:s.length]
